@@ -293,6 +293,19 @@ def run(ctx) -> None:
         rep.add("C15.R3", f"{f.qname}:limiter-installed-when-limit-given", ok, f.loc(), "with a limit given and no limiter installed, every awaited piece of work is preceded by installing one" if ok else "with max_concurrency given and no limiter installed yet, work can start without a limiter being installed (extra condition on the installation): node bodies that suspend at run time then run unbounded")
     if n_inst < 2:
         raise AnalysisError(f"only {n_inst} limiter installation sites found")
+    # the same result for every k: a particular value of the limit never selects a code path — the limit is tested for
+    # presence (is None / is not None) and otherwise only sizes things (Semaphore(k), min(k, n) workers)
+    n_lim = 0
+    for f in db.funcs_in("runners"):
+        lims = {p_ for p_ in f.param_names if p_ == "max_concurrency"} | {a.id for c in db.calls_in(f) if (dotted(c.func) or "").split(".")[-1] == "Semaphore" for a in c.args if isinstance(a, ast.Name)}
+        if not lims:
+            continue
+        n_lim += 1
+        bad = [x for x in walk_local(f.node) if isinstance(x, ast.Compare) and any(isinstance(y, ast.Name) and y.id in lims for y in [x.left] + list(x.comparators)) and not all(isinstance(o, (ast.Is, ast.IsNot)) for o in x.ops)]
+        bad += [t for n_ in walk_local(f.node) if isinstance(n_, (ast.If, ast.While, ast.IfExp)) for t in [n_.test] if isinstance(t, ast.Name) and t.id in lims]
+        rep.add("C15.R3", f"{f.qname}:no-path-by-limit-value", not bad, f"{f.module.rel}:{bad[0].lineno if bad else f.lineno}", "the limit is only tested for presence and used to size the limiter" if not bad else f"'{src(bad[0])[:50]}' selects a code path by the value of the limit: the run for that k is not the unlimited run with fewer permits (e.g. a sequential k=1 path where the first failure skips the step's other nodes and their outputs)")
+    if n_lim < 3:
+        raise AnalysisError(f"only {n_lim} functions taking the limit found")
 
     # ---- R6 ---------------------------------------------------------------------
     from .c10 import check_async_map_order
